@@ -60,12 +60,14 @@ Print Assumptions rtr_fragmentation_invariant.
 
    Full statements: the same with the real decoders of every family.  What is
    proved (_partial): the framing, OPEN, UPDATE, NOTIFICATION, KEEPALIVE and
-   ROUTE-REFRESH paths and the IPv4/IPv6 unicast+multicast, labeled-unicast and
-   VPN NLRI decoders are modelled; the NLRI decoders of MUP, flowspec,
-   flowspec-VPN, BGP-LS, SR-policy, EVPN and RTC are an arbitrary function
-   [other] assumed to consume at least one byte per NLRI or fail (it cannot
-   panic: its result is an option).  That contract is exercised by fuzzing the
-   real decoders through the harness (gen/c03.py, kind 'fuzz'), not proved. *)
+   ROUTE-REFRESH paths and the NLRI decoders of IPv4/IPv6 unicast+multicast,
+   labeled unicast, VPN, EVPN (route types 1-5), RTC, SR policy and the four
+   flowspec families are modelled; the NLRI decoders of the remaining families the
+   crate knows - MUP (AFI 1|2, SAFI 85) and BGP-LS (16388/71) - are an arbitrary
+   function [other] assumed to consume at least one byte per NLRI or fail (it
+   cannot panic: its result is an option).  That contract is exercised by fuzzing
+   the real decoders through the harness (gen/c03.py kind 'fuzz': random, seeded
+   and single-octet sweeps over the repository's own wire vectors), not proved. *)
 Definition other_contract (other : N -> bool -> list N -> option (list N)) : Prop :=
   forall f r c c', other f r c = Some c' -> len c' < len c.
 
